@@ -1,7 +1,7 @@
 #!/bin/sh
 # every repaired finding, taken out again, must be reported by the check of its property
 rc=0
-for pair in F5:C10 F3:C09 F3:C05 F1:C04 F1:C06 F2:C09 F9:C17 F6-COSE_F7:C16 F10:C20 F6-JWS:C16 F8:C16 F4:C08 F15:C08 F14:C16 F13:C08 F11:C02 F11:C01 F11:C07 F11:C13 F11:C08; do
+for pair in F5:C10 F3:C09 F3:C05 F1:C04 F1:C06 F2:C09 F9:C17 F6-COSE_F7:C16 F10:C20 F6-JWS:C16 F8:C16 F4:C08 F16:C16 F15:C08 F14:C16 F13:C08 F11:C02 F11:C01 F11:C07 F11:C13 F11:C08; do
   f=${pair%%:*}; c=${pair##*:}
   out=$(/verif/selftest/unfix.sh $f $c 2>&1); e=$?
   v=$(echo "$out" | grep -c '^VIOLATION')
